@@ -94,12 +94,13 @@ def make_payload(spec):
 class Stack:
     """One real ECU attached to the simulated bus."""
 
-    def __init__(self, world, name, dll="j1939-21", max_cmdt=1, rts_cts_dt=None, bam_dt=None, tx_time=0.0):
+    def __init__(self, world, name, dll="j1939-21", max_cmdt=1, rts_cts_dt=None, bam_dt=None, tx_time=0.0, tx_pre=0.0):
         j = load()
         self.world = world
         self.name = name
         self.dll = dll
         self.tx_time = tx_time        # virtual time a send call made by a stack THREAD takes (driver write); 0 = instantaneous
+        self.tx_pre = tx_pre          # virtual time such a call waits BEFORE the frame is on the bus (transmit queue / driver lock)
         self.rx_hooks = []            # callables(listener name) run inside subscriber callbacks (application reacting to a message)
         self.deliveries = []      # (t, listener, prio, pgn, sa, bytes)
         self.requests = []        # (t, ca_name, src, dest, pgn)
@@ -123,6 +124,8 @@ class Stack:
     # bus side ------------------------------------------------------------------
     def _send(self, can_id, extended_id, data, fd_format=False):
         f = simbus.mkframe(can_id, list(data), ext=extended_id, fd=fd_format)
+        if self.tx_pre and self.world.sim.current is not None:
+            sk.FAKE_TIME.sleep(self.tx_pre)
         self.sent.append((self.world.sim.now, f))
         self.world.bus.transmit(self, f)
         if self.tx_time and self.world.sim.current is not None:
